@@ -36,6 +36,9 @@ def build_cases(ctx, nested=0.0, nschema=None, per=None, big=False, gen_kw=None,
             flags, ident, ba = configs(r, ctx.quick())
             if root[0] == "st" and r.random() < 0.5: flags |= 4
             toks = " ".join(vtree.render(tree))
+            # children of the root table created before the top-level buffer is started (allowed at the top level only:
+            # nothing that is or contains a nested buffer; creation order is the same as in the create style, so back references keep their numbers)
+            if root[0] == "t" and not (set(toks.split(" ")) & {"B", "E"}) and r.random() < 0.25: flags |= 8
             cases.append(dict(tables=tabs, unions=uns, root=root, tree=tree, flags=flags, ident=ident, ba=ba, toks=toks, si=si))
     return cases
 
@@ -202,7 +205,8 @@ def run(ctx):
         "evaluations": nb + len(vlines), "distinct_nontrivial": len(set(structural_hash(c["toks"] + str((c["flags"], c["ident"], c["ba"]))) for c in cases)),
         "rule": "random descriptor schemas (+ nested table / struct roots) x random value trees (boundary scalars, empty/long strings and vectors, "
                 "shared strings and tables, unions incl. NONE, union vectors with nulls, struct union members, struct roots, field call order shuffled) "
-                "x settings (size prefix, vtable clustering off, identifiers incl. zero/embedded zero, block alignment 0..4096, direct create_buffer roots) "
+                "x settings (size prefix, vtable clustering off, identifiers incl. zero/embedded zero, block alignment 0..4096, direct create_buffer roots, "
+                "root table children created before start_buffer) "
                 "x 3 call styles (create_* bottom-up; start/append|extend/end with children built while the parent is open; push/append/truncate). "
                 "Every build: C bytes + reported alignment + emit call list == model's; independent strict decoder (offsets forward/in range, vtables, "
                 "alignment relative to a start aligned to the reported alignment, termination, union consistency, required, nested extraction) and "
